@@ -9,6 +9,7 @@ mod machine;
 mod meta;
 mod oracle;
 mod rng;
+mod selftest;
 mod sup;
 mod trace;
 
@@ -57,6 +58,9 @@ fn main() {
                 usage();
             }
             std::process::exit(sup::replay(&args[2]));
+        }
+        "selftest" => {
+            std::process::exit(selftest::selftest());
         }
         "prog" => {
             // sim prog <check> <tier> <program.json>: judge a hand-written program
